@@ -350,7 +350,13 @@ impl<C: CellType> OptRebuild<'_, C> {
                     let mut last = isize::MIN;
                     for &var in vars {
                         if let Some(expr) = self.pending.get(&var) {
-                            if expr.add_count() > 1 || (last == var && expr.op_count() > 1) {
+                            // Products of pending products double in size with every
+                            // multiplication (repeated squaring through copies), so they
+                            // are also bounded in size.
+                            if expr.add_count() > 1
+                                || expr.op_count() > 32
+                                || (last == var && expr.op_count() > 1)
+                            {
                                 self.emit(var);
                             }
                         }
